@@ -39,7 +39,11 @@ is_6531_local (const char *start, const char *end)
     int qpair = 0;
     int quote = 0;
     int ch;
+#ifdef RFC6531_FOLLOW_RFC5322
     int prev = 0; /* previous index of non-ASCII character */
+#endif
+    int prevch = -1; /* previous character, -1 at the start */
+    int closed = 0;  /* previous character was a closing DQUOTE */
     utf8_decode_t u;
 
 
@@ -48,9 +52,20 @@ is_6531_local (const char *start, const char *end)
 
     utf8_decode_init (start, end - start, &u);
     while ((ch = utf8_decode_next (&u)) >= 0) {
-        /* skip non-ASCII characters */
-        if (ch > 0x007f)
+        /* a quoted-string is a whole word: only '.' may follow it */
+        if (closed) {
+            if (ch != '.')
+                return inverse(EEAV_LPART_MISPLACED_QUOTE);
+            closed = 0;
+        }
+
+        /* UTF8-non-ascii extends atext and qtext, but not quoted-pair */
+        if (ch > 0x007f) {
+            if (qpair)
+                return inverse(EEAV_LPART_SPECIAL);
+            prevch = ch;
             continue;
+        }
 
         /* rfc5321 does not allow any CTRL chars */
 #ifndef RFC6531_FOLLOW_RFC5322
@@ -73,7 +88,7 @@ is_6531_local (const char *start, const char *end)
                 /* quote-strings are allowed at the start
                  * or with preciding '.' only
                  */
-                if (prev == 0 || start[prev] == '.')
+                if (prevch == -1 || prevch == '.')
                     quote = 1;
                 else
                     return inverse(EEAV_LPART_MISPLACED_QUOTE);
@@ -81,7 +96,7 @@ is_6531_local (const char *start, const char *end)
             case '.': {
                 /* '.' is allowed after an atom and only once */
                 int pos = utf8_decode_at_byte(&u);
-                if (pos >= 1 && start[prev] == '.')
+                if (pos >= 1 && prevch == '.')
                     return inverse(EEAV_LPART_TOO_MANY_DOTS);
                 if (pos == 0 || (start + pos + 1) == end)
                     return inverse(EEAV_LPART_MISPLACED_DOT);
@@ -102,7 +117,7 @@ is_6531_local (const char *start, const char *end)
             qpair = 0;
         else {
             switch (ch) {
-            case '"':   quote = 0; break;
+            case '"':   quote = 0; closed = 1; break;
             case '\\':  qpair = 1; break;
 #ifdef RFC6531_FOLLOW_RFC5322
             /* the next chars are not allowed in qtext: */
@@ -123,7 +138,8 @@ is_6531_local (const char *start, const char *end)
 
                     switch (ch) {
                         case '"':
-                            quote = !quote;
+                            quote = 0;
+                            closed = 1;
                             break;
                         case '\n': case '\r': case '\t': case ' ':
                             break;
@@ -131,15 +147,22 @@ is_6531_local (const char *start, const char *end)
                             return inverse(EEAV_LPART_UNQUOTED_FWS);
                     }
                 }
+                else /* the end or invalid UTF-8 */
+                    goto out;
             } break;
 #endif
             } /* switch (ch) */
         } /* if (!quote) / else */
 #ifdef RFC6531_FOLLOW_RFC5322
 next:
-#endif
         prev = utf8_decode_at_byte (&u);
+#endif
+        prevch = ch;
     }
+
+#ifdef RFC6531_FOLLOW_RFC5322
+out:
+#endif
 
     /* invalid UTF-8 string */
     if (ch != UTF8_END)
